@@ -202,3 +202,25 @@ Proof.
     all: try (match goal with H : restart _ = true |- _ => destruct (Hrr H) as [Hy _]; discriminate end).
 Qed.
 End Step.
+Lemma list_sum_repeat0 {A} (f : A -> nat) x n : f x = 0 -> list_sum (map f (repeat x n)) = 0.
+Proof. intros H. induction n; simpl; [reflexivity|]. rewrite lsum_cons, H, IHn. reflexivity. Qed.
+
+Lemma init_Inv c chunks : 0 < njobs c -> Forall (fun ch => 0 < length ch) chunks ->
+  Inv c (length (concat chunks)) (init c chunks).
+Proof.
+  intros Hn Hc. constructor; cbn.
+  - split; [apply repeat_length|assumption].
+  - split; constructor.
+  - unfold flight; cbn. rewrite list_sum_repeat0 by reflexivity. rewrite res_len_nil. reflexivity.
+  - unfold flight, main_len; cbn. rewrite list_sum_repeat0 by reflexivity. rewrite res_len_nil. split; lia.
+  - discriminate.
+  - split; [assumption|exact I].
+  - intros w sl Hn0. apply nth_error_In in Hn0. apply repeat_spec in Hn0. subst sl. cbn.
+    repeat split; auto; try discriminate; try (intros; discriminate); try constructor.
+Qed.
+
+Theorem run_Inv c chunks sched : 0 < njobs c -> Forall (fun ch => 0 < length ch) chunks ->
+  Inv c (length (concat chunks)) (run c (init c chunks) sched).
+Proof.
+  intros Hn Hc. apply run_invariant; [apply init_Inv; assumption|]. intros; eapply step_Inv; eauto.
+Qed.
